@@ -372,7 +372,7 @@ class C18(Standard):
         if ctx.thorough:
             for s in EXHAUSTIVE_SIZES:
                 for l in ("default", "nrf"):
-                    for ops in exhaustive(s, l, 7 if s < 20 else 6):
+                    for ops in exhaustive(s, l, 8 if s < 20 else 7):
                         cases.append(Case("exh", [str(s), l, "rb"], ops))
         return cases
 
